@@ -16,7 +16,7 @@ class C17(Prop):
     level_note = 'Trusted: Lean kernel + standard axioms; provider generators are application code; transport.close() may raise (scripted); virtual clock.'
     design_ref = '§5 C17'
     rule = ('cause of the previous connection\'s end (server EOF, transport error, keepalive timeout, healthy) x pending request-responses/streams/channels with a live local publisher at that moment x 1..4 consecutive '
-            'reconnects x provider/connect suspensions x reconnect() called by the harness or from inside on_close (which then returns, or stays suspended while the reconnect is carried out) x an on_close handler that takes 40 ms while a healthy or timed-out connection is being replaced, with a request issued meanwhile (it must be failed or served, not left hanging) x close() of the old transport raising ConnectionResetError or not x a link that had stopped draining writes (requests still queued) or not; after each reconnect a request is issued and answered by the harness on the new transport and the clock is advanced by two '
+            'reconnects x provider/connect suspensions x reconnect() called by the harness or from inside on_close (which then returns, or stays suspended while the reconnect is carried out) x an on_close handler that raises an exception of its own, or takes 40 ms while a healthy or timed-out connection is being replaced, with a request issued meanwhile (it must be failed or served, not left hanging) x close() of the old transport raising ConnectionResetError or not x a link that had stopped draining writes (requests still queued) or not; after each reconnect a request is issued and answered by the harness on the new transport and the clock is advanced by two '
             'keep-alive periods; non-trivial = something was pending or the cause was a timeout; distinct = distinct case')
     assumptions = ['the transport provider yields a fresh transport for every reconnect']
 
@@ -29,7 +29,9 @@ class C17(Prop):
                                     'early_request': rng.random() < 0.4, 'close_raises': rng.random() < 0.35, 'stalled': rng.random() < 0.25,
                                     'pending_channel': rng.random() < 0.35, 'via_on_close': rng.choice([None, None, 'plain', 'suspend']),
                                     # the application's on_close takes its time (examples/client_reconnect.py sleeps there) and a request is issued meanwhile
-                                    'slow_on_close': rng.random() < 0.3, 'mid_request': rng.random() < 0.6} for _ in range(k)],
+                                    'slow_on_close': rng.random() < 0.3, 'mid_request': rng.random() < 0.6,
+                                    # ... or fails with an exception of its own
+                                    'on_close_raises': rng.random() < 0.2} for _ in range(k)],
                         'p': rng.randint(0, 2), 'c': rng.randint(0, 2)})
         return out
 
@@ -128,6 +130,7 @@ class C17(Prop):
             timeouts = len(R.timeouts)
             nconnects = R.log.count('C')
             mid = None
+            R.on_close_raises = bool(r.get('on_close_raises')) and not via
             if via:
                 R.reconnect_in_on_close = False
             else:
@@ -149,6 +152,7 @@ class C17(Prop):
                 await asyncio.sleep(0)
                 if R.log.count('C') > nconnects:
                     break
+            R.on_close_raises = False
             early = None
             if r['early_request'] and R.log.count('C') > nconnects and not c._next_transport.done():
                 try:
